@@ -6,10 +6,10 @@ TB = "rustc front end, kani-compiler MIR->goto translation, CBMC 6.11 + cadical;
 FMT = "alloc::fmt::format -> String::new() (error message construction)"
 
 ACC = []
-for name, storage, f, plen, tail, nxt, tier in S.accept_shapes():
+for name, storage, f, plen, tail, nxt, tier, gap in S.accept_shapes():
     ACC.append(inst(F, name, Q if tier == "quick" else T,
                     "%s framing, header flags 0x%02x (ext=%d ecu=%d sid=%d ts=%d), payload %d B, tail %d B%s; endian+version bits and all other bytes symbolic" % (
-                        "storage" if storage else "serial", f, f & 1, (f >> 2) & 1, (f >> 3) & 1, (f >> 4) & 1, plen, tail, ", tail starts with next marker" if nxt else ""),
+                        "storage" if storage else "serial", f, f & 1, (f >> 2) & 1, (f >> 3) & 1, (f >> 4) & 1, plen, tail, (", next marker after %d garbage bytes" % gap) if nxt else ""),
                     "L1 accept: exactly this message is returned (length, index, every header field, payload)", covers=1,
                     timeout=2400, cost=S.hdr_size(f) + plen + tail + (16 if storage else 4), mem_gb=16))
 
@@ -55,6 +55,6 @@ PROP = {
         inst(F, "c03_u1_storage_any_24", Q, "any buffer <= 24 B (marker or not), any len field / htyp", "L4 length arithmetic: no overflow, consumed <= len", covers=2, timeout=2400, cost=40),
         inst(F, "c03_u1_serial_any_24", Q, "any buffer <= 24 B (marker or not), any len field / htyp", "L4 length arithmetic: no overflow, consumed <= len", covers=2, timeout=2400, cost=40),
         inst(F, "c04_b2_view_storage_36", T, "any 36 B buffer starting with the marker, two views >= frame + 4", "L1b look-ahead locality", covers=2, timeout=3000, mem_gb=24, cost=200),
-        inst(F, "c04_b2_view_serial_26", Q, "any 26 B buffer starting with the marker, two views >= frame + 4", "L1b look-ahead locality", covers=2, timeout=2400, mem_gb=24, cost=100),
+        inst(F, "c04_b2_view_serial_26", T, "any 26 B buffer starting with the marker, two views >= frame + 4", "L1b look-ahead locality", covers=2, timeout=2400, mem_gb=24, cost=100),
     ],
 }
